@@ -50,8 +50,9 @@ SeqsFor(kind) == CASE kind = "file"  -> {"location", "locations"}
 RolesFor(kind) == IF kind = "file" THEN {"src", "none"} ELSE Roles
 PlacesFor(kind) == IF kind = "file" THEN {"same"} ELSE Places
 \* the reduced table on which adversarial names are tried in the quick tier
-Reduced(k, r, p, s) == k \in {"single", "multi", "file"} /\ r \in {"src", "tool"} /\ p \in {"other", "same"}
-                       /\ s \in {"location", "locations", "dir", "out_location"}
+Reduced(k, r, p, s) == \/ k = "single" /\ r \in {"src", "tool"} /\ p = "other" /\ s \in {"location", "dir", "out_location"}
+                       \/ k = "multi" /\ r = "src" /\ p = "other" /\ s = "locations"
+                       \/ k = "file" /\ s = "location"
 Cases ==
   { [kind |-> k, role |-> r, place |-> p, local |-> l, pchar |-> pc, ochar |-> oc, seq |-> s, ep |-> (k = "entry")] :
       k \in Kinds, r \in Roles, p \in Places, l \in BOOLEAN, pc \in LegalInPackage, oc \in Chars, s \in Seqs }
